@@ -486,6 +486,17 @@ class LabelWorld(OracleWorld):
             st.ext["loops"] = loops
             st.consulted = set()
             return None
+        if not loops.get(("confirmed",) + key):
+            # The first pair of arrivals may contain a special first round whose character is read *inside* the body
+            # (`let mut i = offset; loop { read(i); test; … }`): its exits are then judged against the specification
+            # for the first position only. One more round is interpreted before the induction closes the loop, so
+            # that the exits of a generic round (e.g. a test that is right at -1 and wrong at -2) are judged too.
+            loops[("confirmed",) + key] = True
+            loops[key] = cur
+            loops[("facts",) + key] = dict(st.facts)
+            st.ext["loops"] = loops
+            st.consulted = set()
+            return None
         self.inductions.append({"fn": fr.body.id, "head": target, "step": d, "locals": [fr.body.local_name(l) for l in changed]})
         return Outcome("closed", None, st, "closed by shift induction (step %+d)" % d)
 
